@@ -115,6 +115,9 @@ func (ra readerAdapter) isPayloadRead(call ssa.CallInstruction) bool {
 
 func runC08(c *Ctx) {
 	p := c.P
+	// clauses this property shares with others (see DESIGN.md section 6a)
+	defer c.ImportRules("C01", "C01.1")
+	defer c.ImportRules("C16", "C16.5")
 	c.Rule("C08.1", "reader adapters: envelope bytes are exhausted before payload bytes; cursor updates account for the bytes copied", 6)
 	ras := readerAdapters(p)
 	if len(ras) < 2 {
